@@ -231,3 +231,68 @@ func ZZ_C05_ListsOfStructures() {
 		vx.Assert("round trip yields an equal value", vx.Equal(h, w))
 	}
 }
+
+// C05 over a sequence of calls in one process: values of different (unnamed
+// and function-local) struct types are encoded and decoded one after the
+// other, in either order; every round trip yields an equal value (no state
+// kept between calls may leak from one type to the next).
+//
+//gosx:property=C05 tier=quick unwind=16
+func ZZ_C05_DifferentTypesInSequence() {
+	a := vx.Int64("a")
+	vx.Assume(a >= -128 && a <= 127)
+	type t1 = struct {
+		A int64 `ber:"tagNum:0"`
+		B int64 `ber:"tagNum:1"`
+	}
+	type t2 = struct {
+		X int64  `ber:"tagNum:5"`
+		Y bool   `ber:"tagNum:6"`
+		Z *int64 `ber:"tagNum:7,optional"`
+	}
+	type local struct {
+		P bool  `ber:"tagNum:2"`
+		Q int64 `ber:"tagNum:9,explicit"`
+	}
+	rt1 := func() {
+		v := t1{A: a, B: 7}
+		b, err := BerMarshal(v)
+		var w t1
+		if err == nil {
+			err = Unmarshal(b, &w)
+		}
+		vx.Assert("round trip of the first type", err == nil && vx.Equal(v, w))
+	}
+	rt2 := func() {
+		v := t2{X: a, Y: vx.Bool("y")}
+		b, err := BerMarshal(v)
+		var w t2
+		if err == nil {
+			err = Unmarshal(b, &w)
+		}
+		vx.Assert("round trip of the second type", err == nil && vx.Equal(v, w))
+	}
+	rt3 := func() {
+		v := local{P: true, Q: a}
+		b, err := BerMarshal(v)
+		var w local
+		if err == nil {
+			err = Unmarshal(b, &w)
+		}
+		vx.Assert("round trip of the local type", err == nil && vx.Equal(v, w))
+	}
+	switch vx.Choice("order", 3) {
+	case 0:
+		rt1()
+		rt2()
+		rt3()
+	case 1:
+		rt2()
+		rt1()
+		rt3()
+	default:
+		rt3()
+		rt2()
+		rt1()
+	}
+}
